@@ -13,7 +13,7 @@
 From PyGql Require Import Run.Driver Exec.ResponseModel Spec.ResponseSpec Exec.SubscribeModel
   Spec.SubscribeSpec Run.C10run.
 
-Inductive obs_class := OExecutionError | ORuntimeError | OVariablesCoercionError | OOther | ONoException.
+Inductive obs_class := OExecutionError | ORuntimeError | OVariablesCoercionError | OCoercionError | OOther | ONoException.
 
 Inductive case_C17 :=
 | CStream (fresh : list (option json * list json)) (observed : list (option json))
@@ -58,13 +58,14 @@ Fixpoint trace_eqb (a b : list trace_ev) : bool :=
   | _, _ => false
   end.
 
-Definition all_ok : sub_request := SubRequest true true true true 1 true true.
+Definition all_ok : sub_request := SubRequest true true true true true 1 true true.
 
 Definition class_matches (c : exn_class) (o : obs_class) : bool :=
   match c, o with
   | ExecutionErrorC, OExecutionError => true
   | RuntimeErrorC, ORuntimeError => true
   | VariablesCoercionErrorC, OVariablesCoercionError => true
+  | CoercionErrorC, OCoercionError => true
   | _, _ => false
   end.
 
